@@ -1919,3 +1919,136 @@ func TestVerifC14SharedAddr(t *testing.T) {
 		m.Case(vk.Digest(desc), true)
 	}
 }
+
+// ---------------------------------------------------------------------------
+// TestVerifC14RaceFirstDone: the FIRST completions of a connection overlap: k
+// calls are picked on a fresh picker (no latency sample yet), the virtual clock
+// moves on by >= 2 ms, and all Done callbacks are released together from a spin
+// barrier. Concurrent first completions may combine their samples in any order;
+// asserted at quiescence is only the envelope: the estimate of every connection
+// lies within [min, max] of the latencies observed on it (+-1 ns, as in the
+// sequential clause), inflight is 0 and the score is in range.
+
+func TestVerifC14RaceFirstDone(t *testing.T) {
+	logx.Disable()
+	atomic.StoreInt32(&c14Stalled, 0)
+	m := vk.New(t, "C14", "fresh picker (1..3 connections, no latency sample yet), 3..8 calls picked with 0..3 ms between the picks, clock advanced by 2..50 virtual ms, all Done callbacks released together from a spin barrier (race detector on); at quiescence per connection: lag within [min,max] of the latencies observed on it (+-1 ns), inflight==0, 0<=success<=1000")
+	defer m.Done()
+	defer timex.VerifRealClock()
+	rounds := vk.N(1200, 40000)
+	master := m.Rand("firstdone")
+	var nDone, nOverlapConns int64
+	for idx := 1; idx <= rounds; idx++ {
+		n := 1 + master.Intn(3)
+		k := 3 + master.Intn(6)
+		seed := master.Int63()
+		gaps := make([]time.Duration, k)
+		for i := range gaps {
+			gaps[i] = time.Duration(master.Intn(3001)) * time.Microsecond
+		}
+		wait := time.Duration(2000+master.Intn(48001)) * time.Microsecond
+		if !m.Only(idx) {
+			continue
+		}
+		desc := fmt.Sprintf("case=%d;{\"n\":%d,\"calls\":%d,\"wait_us\":%d,\"seed\":%d}", idx, n, k, wait/time.Microsecond, seed)
+		if idx%200 == 1 {
+			m.Current(desc)
+		}
+		timex.VerifFakeClock(c14Start)
+		p, cidx, err := c14NewPicker(n, seed)
+		if err != nil {
+			m.Inconclusive("case %d: %v", idx, err)
+			return
+		}
+		type call struct {
+			conn  int
+			start int64
+			done  func(balancer.DoneInfo)
+		}
+		calls := make([]call, 0, k)
+		bad := false
+		for i := 0; i < k; i++ {
+			start := int64(timex.Now())
+			res, err := p.Pick(c14PickInfo)
+			ci, ok := cidx[res.SubConn]
+			if err != nil || !ok || res.Done == nil {
+				m.Violate("C14:pick:not-a-ready-conn", desc, "Pick returned SubConn %v err %v", res.SubConn, err)
+				bad = true
+				break
+			}
+			calls = append(calls, call{conn: ci, start: start, done: res.Done})
+			timex.VerifAdvance(gaps[i])
+		}
+		if bad {
+			continue
+		}
+		timex.VerifAdvance(wait)
+		end := int64(timex.Now()) // the clock stands still while the callbacks run
+		var arrived, release int32
+		var wg sync.WaitGroup
+		for i := range calls {
+			wg.Add(1)
+			go func(c call, i int) {
+				defer wg.Done()
+				atomic.AddInt32(&arrived, 1)
+				for atomic.LoadInt32(&release) == 0 {
+				}
+				c.done(c14DoneInfo(nil, int64(i)))
+			}(calls[i], i)
+		}
+		if !vk.WaitUntil(c14RaceWatchdog, func() bool { return atomic.LoadInt32(&arrived) == int32(len(calls)) }) {
+			atomic.StoreInt32(&release, 1)
+			m.Inconclusive("case %d: callers did not reach the barrier", idx)
+			return
+		}
+		atomic.StoreInt32(&release, 1)
+		if !vk.Within(c14RaceWatchdog, wg.Wait) {
+			c14ClassifyStall(m, desc, fmt.Sprintf("case %d: %d concurrent first completions", idx, len(calls)))
+			return
+		}
+		nDone += int64(len(calls))
+		lo := make([]int64, n)
+		hi := make([]int64, n)
+		cnt := make([]int, n)
+		for i := range lo {
+			lo[i] = -1
+		}
+		for _, c := range calls {
+			lat := end - c.start
+			if lo[c.conn] < 0 || lat < lo[c.conn] {
+				lo[c.conn] = lat
+			}
+			if lat > hi[c.conn] {
+				hi[c.conn] = lat
+			}
+			cnt[c.conn]++
+		}
+		for i, c := range p.conns {
+			s := c14Read(c)
+			if s.inflight != 0 {
+				m.Violate("C14:inflight:not-picks-minus-completions", desc, "at quiescence backend %d inflight=%d after %d picks and %d completions", i, s.inflight, cnt[i], cnt[i])
+			}
+			if s.success > initSuccess {
+				m.Violate("C14:success:out-of-range", desc, "at quiescence backend %d success=%d", i, s.success)
+			}
+			if cnt[i] == 0 {
+				continue
+			}
+			if cnt[i] >= 2 {
+				nOverlapConns++
+			}
+			if int64(s.lag)+1 < lo[i] || int64(s.lag) > hi[i]+1 || s.lag > 1<<62 {
+				m.Violate("C14:lag:outside-observed-latencies:overlapping-first-completions", desc, "backend %d: %d first completions released together, observed latencies [%d,%d] ns, latency estimate afterwards %d ns", i, cnt[i], lo[i], hi[i], s.lag)
+			}
+		}
+		if m.WantSample() && idx%1000 == 1 {
+			m.Sample(map[string]any{"scenario": desc, "latency_envelope_ns_per_backend": fmt.Sprint(lo, hi), "estimates_ns": fmt.Sprint(c14Read(p.conns[0]).lag)})
+		}
+		m.Case(vk.Digest(n, k, idx%50), true)
+		if m.ViolCount() > 20 {
+			break
+		}
+	}
+	m.Count("firstdone_completions", nDone)
+	m.Count("firstdone_connections_with_overlapping_first_completions", nOverlapConns)
+}
